@@ -119,3 +119,6 @@ PLAN["C04"]["thorough"] = PLAN["C04"]["thorough"] + ["conc"]
 
 PLAN["C20"]["quick"] = PLAN["C20"]["quick"] + ["conc"]
 PLAN["C20"]["thorough"] = PLAN["C20"]["thorough"] + ["conc"]
+
+PLAN["C05"]["quick"] = PLAN["C05"]["quick"] + ["retire"]
+PLAN["C05"]["thorough"] = PLAN["C05"]["thorough"] + ["retire"]
